@@ -19,19 +19,19 @@ open Op
 
 /-! ### vectors -/
 
-theorem fit_length (n : Nat) (x : V) : (fit n x).length = n := List.takeD_length n x 0
+private theorem fit_length (n : Nat) (x : V) : (fit n x).length = n := List.takeD_length n x 0
 
-theorem fit_of_length {n : Nat} {x : V} (h : x.length = n) : fit n x = x := by
+private theorem fit_of_length {n : Nat} {x : V} (h : x.length = n) : fit n x = x := by
   unfold fit
   rw [List.takeD_eq_take 0 (by omega), List.take_of_length_le (by omega)]
 
-theorem headChunk_length (n : Nat) (x : V) : (headChunk n x).length = n := fit_length n _
+private theorem headChunk_length (n : Nat) (x : V) : (headChunk n x).length = n := fit_length n _
 
 theorem headChunk_of_le {n : Nat} {x : V} (h : n ≤ x.length) : headChunk n x = x.take n := by
   unfold headChunk
   exact fit_of_length (by rw [List.length_take]; omega)
 
-theorem headChunk_append {n : Nat} (a b : V) (h : a.length = n) : headChunk n (a ++ b) = a := by
+private theorem headChunk_append {n : Nat} (a b : V) (h : a.length = n) : headChunk n (a ++ b) = a := by
   subst h
   rw [headChunk_of_le (by simp), List.take_left]
 
@@ -50,7 +50,7 @@ theorem nest_size' (td : TreeDef) (ss : List Struct) :
     simp only [List.map_cons, List.flatten_cons, List.map_append, List.sum_append, List.sum_cons, ih]
     rfl
 
-theorem inSList_sizes (ops : List Op) : (inSList ops).map Struct.size = ops.map inSize := by
+private theorem inSList_sizes (ops : List Op) : (inSList ops).map Struct.size = ops.map inSize := by
   induction ops with
   | nil => rfl
   | cons o os ih => simp only [inSList, List.map_cons, ih]; rfl
